@@ -44,12 +44,15 @@ class SThread(object):
 
 class Sched(object):
     def __init__(self, seed, strategy="random", p_inv=8, quantum=3, pct_d=2, pct_est=2000, step_cap=2000000,
-                 time_cap=1e7, trace_files=(), replay=None, opcodes=False):
+                 time_cap=1e7, trace_files=(), replay=None, opcodes=False, eager_sleep=False):
         self.rnd = random.Random(seed)
         self.strategy = strategy
         self.p_inv, self.quantum, self.pct_d, self.pct_est = p_inv, quantum, pct_d, pct_est
         self.step_cap, self.time_cap = step_cap, time_cap
         self.trace_files = set(trace_files)
+        # eager_sleep: a sleeping thread may be resumed at any scheduling point, the clock jumping to its wake-up time
+        # (real time passes while other threads compute; without it timers only fire when everybody else is idle)
+        self.eager_sleep = eager_sleep
         self.opcodes = opcodes  # pre-empt between bytecodes (splits `a[i] += x`) instead of between lines
         self.threads = []
         self.cur = None
@@ -96,7 +99,20 @@ class Sched(object):
             self.until = 1 << 60
 
     def runnable(self):
+        if self.eager_sleep:
+            # a sleeper may be resumed early once somebody else has made progress since it went to sleep (otherwise a
+            # polling loop of high priority would spin the clock forward without letting anybody work)
+            return [t for t in self.threads if t.state == "run" or
+                    (t.state == "sleep" and t.wake <= self.time_cap and self.steps > getattr(t, "sleep_step", 0) + 20)]
         return [t for t in self.threads if t.state == "run"]
+
+    def _wake_if_sleeping(self, t):
+        if t.state == "sleep":
+            self.clock = max(self.clock, t.wake)
+            for o in self.threads:
+                if o.state == "sleep" and o.wake <= self.clock:
+                    o.state = "run"
+                    o.timed_out = True
 
     # ---------------------------------------------------------------- choosing
     def _choose(self, blocked):
@@ -142,6 +158,7 @@ class Sched(object):
 
     def _switch_to(self, nxt):
         me = self.cur
+        self._wake_if_sleeping(nxt)
         if nxt is me:
             return
         self.switches += 1
@@ -212,6 +229,7 @@ class Sched(object):
         t.wake = when
         t.blocked_on = on
         t.timed_out = False
+        t.sleep_step = self.steps
         self._dispatch(True)
         return getattr(t, "timed_out", False)
 
@@ -271,6 +289,7 @@ class Sched(object):
                     self._abort()
                 return
             nxt = self._choose(True)
+        self._wake_if_sleeping(nxt)
         self.switches += 1
         self.choices.append((self.steps, nxt.tid))
         self.cur = nxt
